@@ -263,6 +263,8 @@ class ProgressReporter(object):
         self._value = 0
         if value_max is not None:
             self._value_max = value_max
+        if self._value < self._value_max:
+            self._has_completed = False
 
     @property
     def value(self):
